@@ -468,14 +468,40 @@ Proof.
 Qed.
 
 (* a message is never mistaken for a bundle *)
+Lemma strcmp_addr a rest :
+  nonul a -> a <> [] -> not_bundle_addr a -> strcmp_eq (a ++ 0 :: rest) bundle_magic = Ok false.
+Proof.
+  intros Hn Hne NB. unfold bundle_magic, not_bundle_addr, bundle7 in *.
+  assert (Hz : forall c (l : list byte), nonul (c :: l) -> (c =? 0) = false)
+    by (intros c l H; inversion H; subst; apply Z.eqb_neq; assumption).
+  assert (Ht : forall c (l : list byte), nonul (c :: l) -> nonul l)
+    by (intros c l H; inversion H; assumption).
+  destruct a as [|a0 a]; [congruence|]. cbn [app strcmp_eq].
+  destruct (Z.eqb_spec a0 35) as [->|]; [|reflexivity]. change (35 =? 0) with false. cbv iota. apply Ht in Hn.
+  destruct a as [|a1 a]; [reflexivity|]. cbn [app strcmp_eq].
+  destruct (Z.eqb_spec a1 98) as [->|]; [|reflexivity]. change (98 =? 0) with false. cbv iota. apply Ht in Hn.
+  destruct a as [|a2 a]; [reflexivity|]. cbn [app strcmp_eq].
+  destruct (Z.eqb_spec a2 117) as [->|]; [|reflexivity]. change (117 =? 0) with false. cbv iota. apply Ht in Hn.
+  destruct a as [|a3 a]; [reflexivity|]. cbn [app strcmp_eq].
+  destruct (Z.eqb_spec a3 110) as [->|]; [|reflexivity]. change (110 =? 0) with false. cbv iota. apply Ht in Hn.
+  destruct a as [|a4 a]; [reflexivity|]. cbn [app strcmp_eq].
+  destruct (Z.eqb_spec a4 100) as [->|]; [|reflexivity]. change (100 =? 0) with false. cbv iota. apply Ht in Hn.
+  destruct a as [|a5 a]; [reflexivity|]. cbn [app strcmp_eq].
+  destruct (Z.eqb_spec a5 108) as [->|]; [|reflexivity]. change (108 =? 0) with false. cbv iota. apply Ht in Hn.
+  destruct a as [|a6 a]; [reflexivity|]. cbn [app strcmp_eq].
+  destruct (Z.eqb_spec a6 101) as [->|]; [|reflexivity]. change (101 =? 0) with false. cbv iota. apply Ht in Hn.
+  destruct a as [|a7 a]; [exfalso; apply NB; reflexivity|]. cbn [app strcmp_eq].
+  rewrite (Hz a7 a Hn). reflexivity.
+Qed.
+
 Theorem message_not_bundle a tags args rest :
   msg_wf a tags args -> not_bundle_addr a ->
   bundle_p (enc_spec a tags args ++ rest) = Ok false.
 Proof.
-  intros WF NB. destruct WF as [Hne _ _ _ _].
-  destruct a as [|a0 a']; [congruence|]. unfold not_bundle_addr in NB. cbn [hd] in NB.
-  unfold enc_spec, pad4z. cbn [app]. unfold bundle_p, bundle_magic. cbn [strcmp_eq app].
-  replace (a0 =? 35) with false by (symmetry; apply Z.eqb_neq; assumption). reflexivity.
+  intros WF NB. destruct WF as [Hne Ha _ _ _].
+  unfold enc_spec, pad4z, bundle_p. rewrite <- !app_assoc.
+  assert (Hk : 1 <= 4 - zlen a mod 4) by (pose proof (Z.mod_pos_bound (zlen a) 4 ltac:(lia)); lia).
+  rewrite (zeros_pos _ Hk). cbn [app]. apply strcmp_addr; assumption.
 Qed.
 
 (* ---- subtree_serialize (src/cpp/subtree-serialize.cpp) ------------------- *)
